@@ -26,6 +26,9 @@ zeros ones numel length ndims isempty disp plus minus times eq ne lt gt isequal 
 events enumeration result res obj varargin nargin true1 null nan inf pi eps i j ans json binary ndjson hdf5 protocols types date time none
 optional union variant vector array map tuple pair printf errno assert1 main signal stdin stdout stderr unix linux
 """.split()
+# camelCase spellings whose snake_case form is a multi-word keyword or a <cstdint>-style type name
+MEMBER_WORDS += [w.split("_")[0] + "".join(x.capitalize() for x in w.split("_")[1:]) for w in CPP_KEYWORDS if "_" in w]
+MEMBER_WORDS += ["int8T", "int16T", "int64T", "uint16T", "uint32T", "uint64T", "ptrdiffT", "coAwait", "coReturn", "coYield", "isNot", "notIn"]
 TYPE_WORDS = """None True False Optional Union List Dict Any Generic Enum IntFlag Types Protocols Binary Ndjson Yardl Std Date Time DateTime String Size
 Int32 T Self Version Record Map Array Vector ProtocolError Writer Reader NULL EOF BUFSIZ Object Type Callable Int Float Bool Complex Str Bytes Tuple
 Set Exception Error ValueError Iterable Iterator Protocol OutOfRangeEnum UnionCase DynamicNDArray FixedNDArray NDArray Monostate Variant Json
@@ -290,13 +293,19 @@ def inspect_generated(root, config, expect_namespaces=None, cpp_compile=True):
     return probs
 
 
-def problem_class(target, prob):
+C_MACROS = {"errno", "stdin", "stdout", "stderr", "EOF", "BUFSIZ", "NULL", "assert", "unix", "linux", "SEEK_SET", "RAND_MAX", "EXIT_SUCCESS", "NDEBUG",
+            "CHAR_BIT", "INT_MAX", "FILENAME_MAX", "L_tmpnam", "TMP_MAX", "FOPEN_MAX", "HUGE_VAL", "INFINITY", "NAN", "MB_CUR_MAX"}
+
+
+def problem_class(target, prob, names=""):
     """coarse class of a compiler diagnostic, so that a recorded finding (e.g. namespaces that coincide with C library globals) does not hide
     a different failure for the same kind of name"""
     if target != "cpp":
         return "x"
     if "redeclared as different kind of entity" in prob:
         return "libc-clash"
+    if any(n.split(":")[-1] in C_MACROS for n in names.split("/")):
+        return "macro-clash"
     if re.search(r"expected (identifier|unqualified-id) before (numeric constant|‘\(’ token|'\(' token)", prob):
         return "macro-clash"
     if "vector<bool" in prob or ("use of deleted function" in prob and "serializers.h" in prob):
@@ -460,7 +469,7 @@ def main():
             if (target,) in seen:
                 continue
             seen.add((target,))
-            key = "C08:%s:%s:%s:%s:%s" % (job["kind"], target, job["scope"], job["sig"] if job["kind"] == "clash" else names, problem_class(target, prob))
+            key = "C08:%s:%s:%s:%s:%s" % (job["kind"], target, job["scope"], job["sig"] if job["kind"] == "clash" else names, problem_class(target, prob, names))
             c.violation(key, "accepted package with %s in one %s scope: %s" % (names, job["scope"], prob),
                         {"scope": job["scope"], "entries": job["entries"], "target": target, "problem": prob,
                          "all_problems": [p for t, p in r["probs"] if t == target][:10], "model": r["model"]})
@@ -483,6 +492,22 @@ def main():
     c.rng.shuffle(configs)
     if not thorough:
         pkgs = pkgs[:12]
+    # every type shape also alone in a package, used by one plain and one stream step only (nothing else in the namespace declares
+    # what that shape needs: TypeVars, helper classes, includes)
+    iso, seen_cls = [], set()
+    for t, cs in tys:
+        k = we.type_class(t)
+        if k in seen_cls:
+            continue
+        seen_cls.add(k)
+        iso.append((t, cs))
+    if not thorough:
+        iso = iso[:45]
+    iso_pkgs = []
+    for t, cs in iso:
+        p = we.Package(1000 + len(iso_pkgs), [(t, cs), (t, cs)], sc)
+        p.style = {"generics": "none", "shorthand": len(iso_pkgs) % 2 == 1, "optional": "question"}
+        iso_pkgs.append(p)
     cfg_jobs = []
     ci = 0
     per_pkg = (len(configs) + len(pkgs) - 1) // len(pkgs) if thorough else 6
@@ -491,6 +516,8 @@ def main():
             cfg = configs[ci % len(configs)]
             ci += 1
             cfg_jobs.append((p, cfg, ci))
+        cfg_jobs.append((p, dict(FULL), -p.idx - 1))
+    for p in iso_pkgs:
         cfg_jobs.append((p, dict(FULL), -p.idx - 1))
 
     def cfg_work(arg):
